@@ -381,6 +381,31 @@ func (e *specEnv) binary(n *EBinary, hint types.Type) sv {
 		}
 		return sv{Val: Val{t: eq, typ: tBool}}
 	}
+	// interface value compared with a concrete value (Go semantics: same dynamic type and equal value)
+	if isCmp && (n.Op == "==" || n.Op == "!=") && a.typ != nil && b.typ != nil {
+		_, ai := a.typ.Underlying().(*types.Interface)
+		_, bi := b.typ.Underlying().(*types.Interface)
+		if ai != bi {
+			ifc, con := a, b
+			if bi {
+				ifc, con = b, a
+			}
+			ct := types.Default(con.typ)
+			it := e.term(ifc, ifc.typ)
+			ctm := e.term(con, ct)
+			_, ubx := u.boxFns(ct, u.sortOf(ct))
+			pay := "(" + ubx + " (i_pay " + it + "))"
+			peq := "(= " + pay + " " + ctm + ")"
+			if isString(ct) {
+				peq = u.strEq(pay, ctm)
+			}
+			eq := fmt.Sprintf("(and (= (i_tag %s) %d) %s)", it, u.eng.typeID(ct), peq)
+			if n.Op == "!=" {
+				eq = "(not " + eq + ")"
+			}
+			return sv{Val: Val{t: eq, typ: tBool}}
+		}
+	}
 	at, bt := e.term(a, ty), e.term(b, ty)
 	if ii, ok := basicIntInfo(ty); ok {
 		if isCmp {
